@@ -113,9 +113,11 @@ def expectations : List Expect := [
   ⟨"openapi3filter/req_resp_decoder.go", "makeObject", 1,
      .panicFree "deepSet reports 'set both as a value and as an object' in either order since a583555 (DESIGN #35, fixed; regression case in corpus/C10); WHICH of two errors is reported varies"⟩,
   ⟨"openapi3filter/req_resp_decoder.go", "sliceMapToSlice", 1,
-     .orderFree "collects integer keys, then takes their maximum; a non-integer key is an error in every order (what the maximum is used for is F-C10-8)"⟩,
+     .orderFree "collects integer keys, then takes their maximum; a non-integer key is an error in every order; the maximum is bounded by len(m)+1024 before elements are built (ab8c63f)"⟩,
   ⟨"openapi3filter/req_resp_decoder.go", "urlValuesDecoder.DecodeObject", 4,
-     .panicFree "form/explode: props[key] = values[0], distinct keys, url.Values entries are non-empty (PanicSites); deepObject: the bracketed parts of a key are joined, so p[a] and p[a]zz write the same props key and the LAST one wins — the verdict of GET /a?p[a]=1&p[a]zz=x varies (accepted 36 of 200 runs; C05/C07 defect, reported), m[1] is in range in every order; the two searches for `found` are existential"⟩,
+     .orderFree "form/explode: props[key] = values[0], distinct keys, url.Values entries are non-empty (PanicSites); deepObject: a key is taken only when it consists of the parameter name and bracket groups exactly (f73e4f9: p[a]zz is ignored), so distinct keys write distinct props keys; the two searches for `found` are existential"⟩,
+  ⟨"openapi3filter/req_resp_decoder.go", "notJSONData", 3,
+     .panicFree "searches a decoded YAML value for a non-string key (checked assertion) or a non-finite number and returns at the first one found: WHICH of the two reasons a body with both gets varies, a format error is returned in every order"⟩,
   ⟨"openapi3filter/validation_kit.go", "DefaultErrorEncoder", 1,
      .orderFree "w.Header().Add(k, v) per header name (distinct keys)"⟩ ]
 
